@@ -86,7 +86,7 @@ def handleSpace (s : SpaceSt) (args : List String) : Option (SpaceSt × String) 
     | .error _ => pure ({ sp := none, dead := true }, "ok")
   | ["free"] =>
     match s.sp with
-    | some sp => if s.dead then some (s, "ok -") else some (s, "ok " ++ " ".intercalate (sp.fsm.runs.map fun r => s!"{r.start}+{r.size}"))
+    | some sp => if s.dead then some (s, "ok -") else some (s, ("ok " ++ " ".intercalate (sp.fsm.runs.map fun r => s!"{r.start}+{r.size}")).trimAsciiEnd.toString)
     | none => some (s, "ok -")
   | [k, a, n] => do
     let a ← a.toNat?; let n ← n.toNat?
